@@ -44,6 +44,8 @@ def handle : List String → Option String
       let v ← parseList? parseRat? v
       let r := backwardErrorDense (doc2d m n (← dr.toNat?) (← dc.toNat?) (← parseRat? lamr) (← parseRat? lamc) w) (m * n) v (List.zipWith (· * ·) w y)
       some s!"{showRat r.1} {showRat r.2}"
+  | ["c06.asmjbcd", n, d, c, diag, lower, reversed] => do
+      some (showMat (asmJbcd (← n.toNat?) (← d.toNat?) (← parseRat? c) (← parseRat? diag) (b lower) (b reversed)))
   | ["c06.asm2d", m, n, dr, dc, lamr, lamc, w] => do
       some (showMat (asm2dRows (← m.toNat?) (← n.toNat?) (← dr.toNat?) (← dc.toNat?) (← parseRat? lamr) (← parseRat? lamc) (← parseList? parseRat? w)))
   | _ => none
